@@ -37,9 +37,16 @@ vars == <<ev, cfg, pc, sent, discarded>>
 
 \* emit::Kind as the library defines it (src/kind.rs FromStr: trim, ASCII case-insensitive;
 \* FromValue: the typed value or the parse of its text form)
+\* The same kind arrives in different value FORMS: a borrowed &str, the typed emit::Kind, the
+\* typed Kind after a round trip through an owned value, an owned copy of the text, a
+\* Display capture of a type that renders the text, a String.  The kind decides, whatever
+\* the form.
+SpanForms == {"span", "typedSpan", "spanTypedOwned", "spanStrOwned", "spanDisplay", "spanFromDisplay", "spanString"}
+MetricForms == {"metric", "typedMetric", "metricTypedOwned", "metricStrOwned", "metricDisplay", "metricFromDisplay", "metricString"}
+
 KindParse(k) ==
-    CASE k \in {"span", "SPAN", "typedSpan"} -> "span"
-      [] k \in {"metric", "padMetric", "typedMetric"} -> "metric"
+    CASE k \in SpanForms \cup {"SPAN"} -> "span"
+      [] k \in MetricForms \cup {"padMetric"} -> "metric"
       [] OTHER -> "none"
 
 \* The statement says "metric kind" / "span kind": canonical spellings are binding, lenient
